@@ -49,6 +49,12 @@ CHECKS = {
         note="Trusted: z3, CPython, rsx, the model file system, the 40-line reference replay. RemoveResource.undo is unimplemented in rope (known finding). Counterexamples are replayed on the real file system.",
         design="§5 C11",
     ),
+    "C02": dict(
+        level="other",
+        text="Solver-decided, path-exhaustive within stated bounds (Pattern B): rope's whole occurrence pipeline (findit.find_occurrences -> occurrences.Finder/PyNameFilter -> evaluate.ScopeNameFinder -> pyscopes/pyobjectsdef scope visitors -> worder/simplify) runs on projects of corpus K01 whose identifier spellings are symbolic; z3 enumerates every equality pattern among the slots (aliasing, shadowing, same spelling inside strings/comments) and every further character distinction rope makes; the query occurrence ranges over all slot occurrences. On every path rope's answer is compared, both directions, with the token set the reference binder assigns to the same (scope, name) binding across all modules.",
+        note="Trusted: z3, CPython, rsx (symbolic parse via placeholder text, symre), the reference binder pybind (validated against symtable on generated programs). Five classes of genuine scoping defects found here are listed in known_findings.json (comprehension, lambda, nonlocal, default-expression, walrus-in-comprehension); every other discrepancy is a VIOLATION. Bound: corpus K01, one-letter identifiers.",
+        design="§5 C02",
+    ),
 }
 
 NOT_YET = "check not built yet (see DESIGN.md §5 for the planned decision procedure)"
